@@ -123,6 +123,7 @@ func init() {
 				{Scenario: "c16_race", Params: mustJSON(ScrapeRaceParams{Against: "open"}), Bound: b, Shards: sh},
 				{Scenario: "c12_afterrebalance", Params: mustJSON(AfterRebParams{OldServer: true, Dynamic: true, CountOnly: true}), Bound: 1, Shards: 8, Note: "server below 5.5.0, dynamic membership (immediate re-open): the asynchronous end of the last stream the old session closed must not lower the active-stream figure of the new session (every schedule within the bound)"},
 				{Scenario: "c12_afterrebalance", Params: mustJSON(AfterRebParams{Dynamic: true, CountOnly: true}), Bound: 1, Shards: 8},
+				{Scenario: "c20_scrapefault", Params: mustJSON(struct{}{}), Bound: 0, Note: "scrapes around a failing sequence-number query: the lag is the value currently in effect or absent, never a stale one"},
 				{Scenario: "c16_finitelag", Params: mustJSON(struct{}{}), Bound: 0, Note: "finite mode with writes going on after the end bounds were sampled: the lag follows the server's current high seqno"},
 				{Scenario: "c16_infoduringopen", Params: mustJSON(struct{}{}), Bound: 1, Shards: 4, Note: "a new numbering published at every point of the Open() of the first and of a second session: membership and range gauges describe one assignment, the one the streams were opened for"},
 				{Scenario: "c16_race", Params: mustJSON(ScrapeRaceParams{Against: "scrape", Inject: true}), Bound: 1, Shards: 8, Note: "two overlapping scrapes of the one collector (a whole scrape injected at every point of another, plus one deviation): each reports a total lag equal to the sum of its own per-vBucket lags"},
@@ -693,6 +694,72 @@ func init() {
 				vrt.Failf("finite mode: total lag = %v, want %v", v, total)
 			}
 			vrt.SetOutcome(fmt.Sprintf("when=%d total=%v", when, total))
+		}}
+	}
+}
+
+// c20_scrapefault: the metrics collector's sequence-number query across scrapes: a healthy scrape, six seconds
+// later a scrape whose query fails (no lag is published for it), one second later - the server is healthy again
+// and has moved on - another scrape: it publishes the lag of the server's CURRENT answer, never an older table
+// passed off as fresh ("success is never reported for an operation the server did not confirm").
+func init() {
+	scenarios["c20_scrapefault"] = func(raw json.RawMessage) *vrt.Scenario {
+		return &vrt.Scenario{Name: "c20_scrapefault", FreeChoices: true, NoTimerAlt: true, MaxSteps: 400000, Main: func() {
+			resetGlobals()
+			gap1 := []time.Duration{0, time.Second, 6 * time.Second, time.Minute}[vrt.Choose(4, true, "gap-before-the-failing-scrape")]
+			gap2 := []time.Duration{0, time.Second, 6 * time.Second}[vrt.Choose(3, true, "gap-after-it")]
+			how := vrt.Choose(2, true, "failure") // error status | never answered
+			o := EnvOpts{Vbs: 2, CheckpointType: "manual", WrapMeta: true}
+			c := NewCluster(&o)
+			for vb := uint16(0); vb < 2; vb++ {
+				c.Append(vb, marker(1, 2), symbolPacket("M", 1), symbolPacket("M", 2))
+			}
+			e := NewEnv(c, o)
+			e.Cons.AutoAck = true
+			e.Stream.Open()
+			c.WaitIdle()
+			c.Vb[0].High, c.Vb[1].High = 7, 4
+			lagOf := func(m map[string]float64) [2]float64 {
+				return [2]float64{m["cbgo_lag_current{vbId=0}"], m["cbgo_lag_current{vbId=1}"]}
+			}
+			desc := fmt.Sprintf("scrape, %v later a scrape whose sequence-number query fails (%s), %v later a third scrape", gap1, []string{"error status", "no answer"}[how], gap2)
+			m1, err := scrape(e)
+			if err != nil || lagOf(m1) != [2]float64{5, 2} {
+				vrt.Failf("%s: first scrape: %v, lags %v, want [5 2]", desc, err, lagOf(m1))
+				return
+			}
+			vrt.Sleep(gap1)
+			c.Fault = func(r *gocbcore.SimRequest) gocbcore.SimAnswer {
+				if r.Kind == "vbseqnos" {
+					if how == 0 {
+						return gocbcore.SimAnswer{Kind: "err", Err: gocbcore.ErrTemporaryFailure}
+					}
+					return gocbcore.SimAnswer{Kind: "drop"}
+				}
+				return gocbcore.SimAnswer{}
+			}
+			c.Vb[0].High, c.Vb[1].High = 20, 10
+			n0 := len(c.RequestsOf("vbseqnos"))
+			m2, err2 := scrape(e)
+			sent2 := len(c.RequestsOf("vbseqnos")) - n0
+			if err2 == nil {
+				if _, has := m2["cbgo_lag_current{vbId=0}"]; has && sent2 == 0 {
+					vrt.Failf("%s: the second scrape sent no query and published lags %v (the server is at [18 8] by now)", desc, lagOf(m2))
+				} else if has && sent2 > 0 {
+					vrt.Failf("%s: the query of the second scrape failed, a lag was published all the same: %v", desc, lagOf(m2))
+				}
+			}
+			c.Fault = nil
+			vrt.Sleep(gap2)
+			c.Vb[0].High, c.Vb[1].High = 30, 12
+			m3, err3 := scrape(e)
+			if err3 != nil {
+				vrt.Failf("%s: third scrape failed against a healthy server: %v", desc, err3)
+			} else if lagOf(m3) != [2]float64{28, 10} {
+				vrt.Failf("%s: the third scrape published lags %v, the server's current answer gives [28 10]", desc, lagOf(m3))
+			}
+			vrt.SetOutcome(desc)
+			e.Stream.Close(false)
 		}}
 	}
 }
